@@ -33,8 +33,12 @@ RULE = ("active: lists of 0-4 positive/negated range()/cron() specifications (da
         "trigger expression, state_hold with window end points inside the hold, 40 % of the functions with further trigger decorators "
         "of the same and of other types (two @state_trigger on different entities, two @event_trigger, state+event+time), @state_active over watched / unwatched / missing entities and .old, @time_active windows "
         "around the scenario times, hold_off, both decorator orders) driven by timed scenarios on the virtual clock under "
-        "both subsystems, with direct calls interleaved.  Non-trivial: at least one specification or occurrence; distinct "
-        "by payload.")
+        "both subsystems, with direct calls interleaved.  Boundary values: lists of touching / empty (start == end) / wrapping / "
+        "whole-day (0:00-24:00, 23:60, 23:59:60) ranges in positive, `not` and mixed form at every end point +-1us, crontab entries "
+        "with ranges / steps / lists / names / both day fields at matching and non-matching minutes, upper-case / capitalised / "
+        "blank-padded spellings, zero offsets, 29 Feb / 31 Dec / 1 Jan dates, hold_off 0 / 0.0 / 1 ms / None, @state_active over "
+        "attributes, @service on guarded functions (service calls run ungated), a guard decorator used twice.  Non-trivial: at least "
+        "one specification or occurrence; distinct by payload.")
 ASSUMPTIONS = [
     "croniter.match and astral sunrise/sunset are parameters of the model (cronMatch, sun); croniter is compared with an "
     "independent crontab field matcher, astral is called directly by the oracle",
@@ -113,14 +117,26 @@ def render_date(d, style):
     return (DOW_LONG if style & 256 else DOW_SHORT)[d[1]]
 
 
+def respell(s, style):
+    """the spellings parse_date_time accepts besides the documented lower-case one: bit 1024 upper case, 2048 capitalised words,
+    4096 runs of blanks between the parts and around the whole"""
+    if style & 1024:
+        s = s.upper()
+    elif style & 2048:
+        s = s.title()
+    if style & 4096:
+        s = "  " + s.replace(" ", "   ") + " "
+    return s
+
+
 def render_dt(d, style=0):
     if d[0] == "now":
-        return "now" + render_off(d[1], style | 1)
+        return respell("now" + render_off(d[1], style | 1), style)
     _, date, tm, off = d
     parts = [p for p in (render_date(date, style), render_time(tm, style)) if p]
     body = " ".join(parts)
     o = render_off(off, style | (1 if body else 0))
-    return (body + o).strip() if body else o.strip()
+    return respell((body + o).strip() if body else o.strip(), style)
 
 
 def render_aspec(a, style=0):
@@ -207,7 +223,12 @@ def oracle_dt(d, ref, startup, day_offset=0, sun=None):
     return t + off_us(off) * US, fixed
 
 
+CRON_NAMES = {"jan": 1, "feb": 2, "mar": 3, "apr": 4, "may": 5, "jun": 6, "jul": 7, "aug": 8, "sep": 9, "oct": 10, "nov": 11, "dec": 12,
+              "sun": 0, "mon": 1, "tue": 2, "wed": 3, "thu": 4, "fri": 5, "sat": 6}
+
+
 def _cron_field(f, lo, hi, v, wrap7=False):
+    f = re.sub(r"[a-z]{3}", lambda m: str(CRON_NAMES[m.group(0)]), f.lower())
     for part in f.split(","):
         step = 1
         if "/" in part:
@@ -293,6 +314,8 @@ def gen_off(rng, big=False):
     unit = rng.choice(["s", "sec", "seconds", "", "m", "min", "mins", "minutes", "h", "hr", "hours", "d", "day", "days",
                        "w", "week"] if big else ["s", "sec", "", "m", "min", "minutes", "h", "hr", "hour"])
     sc = UNITS[unit]
+    if rng.random() < 0.06:
+        return [rng.choice([1, -1]), rng.choice(["0", "0.0", "00"]), unit]      # "+0s", "- 0.0 min": the instant itself
     if sc == 1:
         num = rng.choice(["1", "30", "90", "0.5", "12.345", "3600", "0.001", "59.999"])
     elif sc == 60:
@@ -306,6 +329,10 @@ def gen_off(rng, big=False):
 
 def gen_time(rng, sunok):
     r = rng.random()
+    if r < 0.05:
+        # edge values of the h:m[:s] form: the end of the day written as 24:00 / 23:60 / 23:59:60, its last microsecond, 0:00
+        return rng.choice([["hms", 24, 0, 0], ["hms", 23, 60, 0], ["hms", 23, 59, 60000000], ["hms", 23, 59, 59999999], ["hms", 0, 0, 0],
+                           ["hms", 0, 0, 1], ["hms", 12, 0, 0]])
     if r < 0.62:
         us = rng.choice([0, 0, 0, 1000000 * rng.randrange(60), 1000000 * rng.randrange(60) + rng.choice([500000, 250000, 1, 999999, 123456])])
         return ["hms", rng.choice([0, 1, 6, 9, 11, 12, 13, 18, 22, 23, rng.randrange(24)]), rng.choice([0, 0, 30, 59, rng.randrange(60)]), us]
@@ -321,8 +348,12 @@ def gen_time(rng, sunok):
 def gen_date(rng, base):
     r = rng.random()
     d = base.date() + dt.timedelta(days=rng.choice([0, 0, 0, 1, -1, 2, -3, 7, 30, -30, 365]))
-    if r < 0.45:
+    if r < 0.41:
         return "none"
+    if r < 0.45:
+        y = base.year
+        return rng.choice([["full", 2024, 2, 29], ["md", 2, 29], ["md", 12, 31], ["md", 1, 1], ["full", y, 12, 31], ["full", y + 1, 1, 1],
+                           ["md", 2, 28], ["md", 3, 1], ["full", y, 1, 1]])
     if r < 0.62:
         return ["full", d.year, d.month, d.day]
     if r < 0.72:
@@ -380,36 +411,119 @@ def rand_base(rng):
     return t
 
 
+def _active_cases(rng, specs, strs, base, startup, tags, extra=(), limit=9):
+    """one list of specifications x evaluation times: every resolved end point and 1 us either side, `base`, `startup`"""
+    sun = Sun()
+    times = {base, startup}
+    for a in specs:
+        if a["kind"] != "range":
+            times.add(base.replace(second=0, microsecond=0))
+            times.add(base.replace(second=59, microsecond=999999))
+            continue
+        try:
+            s, e = range_ends(a, base, startup, sun)
+        except ValueError:
+            continue
+        for p in (s, e):
+            if dt.datetime(1971, 1, 1) < p < dt.datetime(2100, 1, 1):
+                times.update((p, p - US, p + US))
+    times = sorted(times)
+    if limit and len(times) > limit:
+        times = sorted(rng.sample(times, limit))
+    times = sorted(set(times) | set(extra))
+    as_str = len(strs) == 1 and rng.random() < 0.5
+    return [Case({"kind": "active", "specs": specs, "strs": strs, "now": us_of(now), "startup": us_of(startup), "as_str": as_str},
+                 None, tags=tags) for now in times]
+
+
 def gen_active(rng, n_lists):
     cases = []
     for _ in range(n_lists):
         base = rand_base(rng)
         startup = base - dt.timedelta(seconds=rng.choice([0, 0, 1, 60, 3600, 86400 * 3]))
         specs = [gen_aspec(rng, base) for _ in range(rng.choice([0, 1, 1, 1, 2, 2, 3, 4]))]
-        style = rng.randrange(1024)
+        style = rng.randrange(8192)
         strs = [render_aspec(a, style) for a in specs]
-        sun = Sun()
-        times = {base, startup}
-        for a in specs:
-            if a["kind"] != "range":
-                times.add(base.replace(second=0, microsecond=0))
-                times.add(base.replace(second=59, microsecond=999999))
-                continue
-            try:
-                s, e = range_ends(a, base, startup, sun)
-            except ValueError:
-                continue
-            for p in (s, e):
-                if dt.datetime(1971, 1, 1) < p < dt.datetime(2100, 1, 1):
-                    times.update((p, p - US, p + US))
-        times = sorted(times)
-        if len(times) > 9:
-            times = sorted(rng.sample(times, 9))
-        times.append(rand_base(rng))
-        as_str = len(strs) == 1 and rng.random() < 0.5
-        for now in times:
-            cases.append(Case({"kind": "active", "specs": specs, "strs": strs, "now": us_of(now), "startup": us_of(startup),
-                               "as_str": as_str}, None, tags=("active",)))
+        cases += _active_cases(rng, specs, strs, base, startup, ("active",), extra=[rand_base(rng)])
+    return cases
+
+
+# crontab expressions with times that do / do not match (hand-picked: ranges, steps, lists, names, day-of-month and day-of-week
+# both restricted (either one suffices), days that never / rarely exist)
+D_ = dt.datetime
+CRON_POINTS = [
+    ("0 12 13 * 5", [D_(2024, 6, 13, 12), D_(2024, 6, 14, 12), D_(2024, 9, 13, 12), D_(2024, 6, 15, 12), D_(2024, 6, 13, 12, 1)]),
+    ("0 0 1-7 * 1", [D_(2024, 6, 3), D_(2024, 6, 10), D_(2024, 6, 4), D_(2024, 6, 11)]),
+    ("* * * jan,jun mon-fri", [D_(2024, 6, 3, 12), D_(2024, 6, 2, 12), D_(2024, 7, 3, 12), D_(2024, 1, 1)]),
+    ("* * * JAN MON", [D_(2024, 1, 1), D_(2024, 1, 2), D_(2024, 2, 5)]),
+    ("0 0 30 2 *", [D_(2024, 2, 29), D_(2024, 3, 1)]),
+    ("0 0 31 4,6 *", [D_(2024, 6, 30), D_(2024, 7, 1)]),
+    ("0 0 29 2 *", [D_(2024, 2, 29), D_(2025, 2, 28), D_(2025, 3, 1)]),
+    ("*/7 8-10,14 1-7 * *", [D_(2024, 6, 3, 14, 0), D_(2024, 6, 3, 14, 7), D_(2024, 6, 3, 14, 8), D_(2024, 6, 8, 14, 0), D_(2024, 6, 7, 10, 56),
+                             D_(2024, 6, 7, 11, 0)]),
+    ("0 0 * * 7", [D_(2024, 6, 2), D_(2024, 6, 3)]),
+    ("0 0 * * 0,6", [D_(2024, 6, 1), D_(2024, 6, 2), D_(2024, 6, 3)]),
+    ("59 23 31 12 *", [D_(2024, 12, 31, 23, 59), D_(2024, 12, 31, 23, 58, 59, 999999), D_(2025, 1, 1)]),
+    ("10-20/5 */12 * * *", [D_(2024, 6, 3, 12, 10), D_(2024, 6, 3, 12, 15), D_(2024, 6, 3, 12, 20), D_(2024, 6, 3, 12, 25), D_(2024, 6, 3, 13, 10), D_(2024, 6, 3, 0, 20)]),
+]
+
+
+def gen_active_boundary(rng, n):
+    """boundary shapes of a @time_active list, evaluated at every end point and 1 us either side: ranges that touch, that are empty
+    (start == end), that wrap midnight, that span the whole day (0:00 .. 24:00), each as positive and as `not` entry and mixed;
+    crontab entries with ranges / steps / lists / names / both day fields at matching and non-matching minutes"""
+    cases = []
+
+    def at(m, us=0, date="none"):
+        return ["at", date, ["hms", m // 60, m % 60, us], None]
+
+    def rg(neg, s, e):
+        return {"neg": neg, "kind": "range", "s": s, "e": e}
+    shapes = ["touch", "touch-not", "touch-mixed", "empty", "empty-not", "empty+other", "wrap-touch", "wrap-not", "whole-day", "whole-day-not",
+              "nested-not", "same-twice", "dated-touch", "dow-touch"]
+    for i in range(n):
+        shape = shapes[i % len(shapes)]
+        base = rand_base(rng).replace(hour=0, minute=0, second=0, microsecond=0)
+        a, b, c = sorted(rng.sample(range(1, 24 * 60 - 1), 3))
+        us = rng.choice([0, 0, 500000, 59999999])
+        date = "none"
+        if shape == "dated-touch":
+            date = ["full", base.year, base.month, base.day]
+        elif shape == "dow-touch":
+            date = ["dow", base.isoweekday() % 7]
+        A, B, C = at(a, 0, date), at(b, us, date), at(c, 0, date)
+        specs = {
+            "touch": [rg(False, A, B), rg(False, B, C)],
+            "touch-not": [rg(True, A, B), rg(True, B, C)],
+            "touch-mixed": [rg(False, A, B), rg(True, B, C)],          # b belongs to both: the negative entry wins
+            "empty": [rg(False, B, B)],
+            "empty-not": [rg(True, B, B)],
+            "empty+other": [rg(False, B, B), rg(rng.random() < 0.5, A, C), rg(False, C, C)],
+            "wrap-touch": [rg(False, C, A), rg(False, A, B)],         # 22:00 .. 6:00 next to 6:00 .. 9:00
+            "wrap-not": [rg(True, C, A), rg(False, B, C)],
+            "whole-day": [rg(False, at(0), rng.choice([at(24 * 60), ["at", "none", ["hms", 23, 60, 0], None], ["at", "none", ["hms", 23, 59, 59999999], None]]))],
+            "whole-day-not": [rg(True, ["at", "none", "midnight", None], at(24 * 60)), rg(False, A, B)],
+            "nested-not": [rg(False, A, C), rg(True, B, B)],            # a one-instant hole
+            "same-twice": [rg(False, A, B), rg(False, A, B), rg(True, C, C)],
+            "dated-touch": [rg(False, A, B), rg(rng.random() < 0.5, B, C)],
+            "dow-touch": [rg(False, A, B), rg(rng.random() < 0.5, B, C)],
+        }[shape]
+        startup = base - dt.timedelta(seconds=rng.choice([0, 3600]))
+        style = rng.randrange(8192)
+        strs = [render_aspec(x, style) for x in specs]
+        day0 = base
+        extra = [day0, day0 - US, day0 + dt.timedelta(days=1), day0 + dt.timedelta(days=1) - US, day0 + dt.timedelta(days=1) + US]
+        cases += _active_cases(rng, specs, strs, base + dt.timedelta(minutes=b), startup, ("active", "boundary", shape), extra=extra, limit=0)
+    for expr, pts in CRON_POINTS:
+        for neg in (False, True):
+            specs = [{"neg": neg, "kind": "cron", "expr": expr}]
+            if rng.random() < 0.5:
+                specs.append(rg(rng.random() < 0.5, at(0), at(12 * 60)))
+            strs = [render_aspec(x, rng.randrange(8192)) for x in specs]
+            for now in pts:
+                for t in (now, now - US, now + dt.timedelta(seconds=59, microseconds=999999), now + dt.timedelta(minutes=1)):
+                    cases.append(Case({"kind": "active", "specs": specs, "strs": strs, "now": us_of(t), "startup": us_of(pts[0]), "as_str": False},
+                                      None, tags=("active", "boundary", "cron")))
     return cases
 
 
@@ -421,8 +535,9 @@ def gen_handler(rng, n):
         startup = base - dt.timedelta(seconds=rng.choice([0, 5, 3600]))
         specs = [gen_aspec(rng, base, sunok=False) for _ in range(rng.choice([0, 1, 1, 2, 2, 3, 4]))]
         specs = [a for a in specs if not _raises(a, base, startup)]
-        strs = [render_aspec(a, rng.randrange(1024)) for a in specs]
-        hold = rng.choice([None, None, 0, 1, 2.5, 10])
+        strs = [render_aspec(a, rng.randrange(8192)) for a in specs]
+        # hold_off: absent / 0 / 0.0 (no hold-off at all), tiny (1 ms: only occurrences closer than that are dropped), usual values
+        hold = rng.choice([None, None, 0, 0.0, 0.001, 0.001, 1, 2.5, 10])
         evs, t, wall = [], 1000 + rng.randrange(5), base
         pts = []
         sun = Sun()
@@ -432,9 +547,13 @@ def gen_handler(rng, n):
                 pts += [s, e, s - US, e + US]
         for _ in range(rng.randrange(2, 9)):
             gap = rng.choice([0.25, 0.5, 1, 2, 2.5, 3, 9.75, 10, 10.25]) if hold else rng.choice([0.25, 1, 5])
-            if hold and rng.random() < 0.4:
+            if hold and hold >= 1 and rng.random() < 0.4:
                 gap = rng.choice([hold, hold - 0.25, hold + 0.25])
-            t += max(gap, 0.25)
+            if hold == 0.001:
+                gap = rng.choice([0.0004, 0.0004, 0.0007, 0.002, 0.25, 1])     # sums never equal 1 ms: no tie decided by float rounding
+            elif not hold and rng.random() < 0.3:
+                gap = 0.0                                               # two occurrences in the same tick
+            t = round(t + (gap if hold == 0.001 or not hold else max(gap, 0.25)), 6)
             wall = rng.choice(pts) if pts and rng.random() < 0.6 else wall + dt.timedelta(seconds=gap)
             evs.append({"t": t, "wall": us_of(wall), "tt": rng.random() < 0.5})
         # non-existent dates (2/29 in another year …) belong to the `active` stream: an exception in the middle of a
@@ -477,6 +596,11 @@ SA_EXPRS = [
     ("pyscript.cnt != '0' and pyscript.en != '0'", lambda c: c.val("cnt") != "0" and c.val("en") != "0",
      ["pyscript.cnt", "pyscript.en"]),
     ("pyscript.cnt != '1'", lambda c: c.val("cnt") != "1", ["pyscript.cnt"]),
+    # attributes (pyscript.cnt carries the attribute `level` = int(state)): an int compared, an int as the value itself (0 is falsy
+    # but not False), an attribute that the existing entity does not have
+    ("pyscript.cnt.level >= 2", lambda c: c.attr("cnt", "level") >= 2, ["pyscript.cnt.level"]),
+    ("pyscript.cnt.level", lambda c: c.attr("cnt", "level"), ["pyscript.cnt.level"]),
+    ("pyscript.cnt.nolevel == None and pyscript.en == '1'", lambda c: c.val("en") == "1", ["pyscript.cnt.nolevel", "pyscript.en"]),
 ]
 
 
@@ -506,6 +630,12 @@ class Ctx:
     def old(self, name):
         return self.table.get("pyscript." + name + ".old")
 
+    def attr(self, name, a):
+        key = "pyscript." + name + "." + a
+        if key in self.table:
+            return self.table[key]
+        return int(self.state[name])          # only pyscript.cnt has attributes: level = int(state)
+
 
 def var_dict(names, new_vars, state, last_x):
     """State.notify_var_get(names, new_vars): triggering values, else the last notified value of a watched variable, else
@@ -522,6 +652,8 @@ def var_dict(names, new_vars, state, last_x):
             d[n] = None            # getattr(StateVal, "old", None)
         elif len(parts) == 2 and state.get(root) is None:
             d[n] = None
+        elif len(parts) == 3 and root == "cnt" and parts[2] == "level" and state.get("cnt") is not None:
+            pass                   # exists and is not watched: read when the expression is evaluated
         elif len(parts) == 3:
             d[n] = None            # no such attribute
     return d
@@ -551,6 +683,8 @@ def gen_window_near(rng, horizon, points=None):
             a, b = a / 4, b / 4
         if r < 0.3:
             a, b = b, a   # wraps
+        elif r < 0.4:
+            b = a         # empty: start == end (only that instant)
         def mk(t):
             x = BASE + dt.timedelta(seconds=t)
             tm = ["hms", x.hour, x.minute, x.second * 1000000 + x.microsecond]
@@ -565,6 +699,10 @@ def gen_window_near(rng, horizon, points=None):
                 return ["now", [1, str(t), rng.choice(["s", "sec", ""])]] if t == int(t) and not points else ["at", "today", tm, None]
             return ["at", "none", "noon", [1, str(t), "s"]] if t == int(t) else ["at", ["md", 6, 3], tm, None]
         specs.append({"neg": neg, "kind": "range", "s": mk(a), "e": mk(b)})
+        if r >= 0.85 and len(specs) < 4:
+            # a second range that touches the first one at its end (that instant belongs to both)
+            c = rng.choice(points) if points else rng.randrange(0, int(horizon * 4)) / 4
+            specs.append({"neg": rng.random() < 0.4, "kind": "range", "s": mk(b), "e": mk(c)})
     return specs
 
 
@@ -576,7 +714,7 @@ def gen_ha(rng, n_scen):
         nst = rng.randrange(10, 22)
         times = sorted(rng.sample(range(2, int(horizon * 4)), nst))
         stim, seq = [[0.25, "en", rng.choice(["0", "1"])], [0.5, "cnt", rng.choice(["0", "1", "2"])]], 0
-        holds = [None, 0, 1, 1.5, 2, 5]
+        holds = [None, 0, 0.0, 0.001, 1, 1.5, 2, 5]
         last_trig = None
         for k in times:
             t = k / 4 + 0.5
@@ -608,9 +746,12 @@ def gen_ha(rng, n_scen):
                 stim.append([t, "en", rng.choice(["0", "1"])])
             elif r < 0.88:
                 stim.append([t, "cnt", rng.choice(["0", "1", "2", "3"])])
-            else:
+            elif r < 0.94:
                 seq += 1
                 stim.append([t, "direct", seq])
+            else:
+                seq += 1
+                stim.append([t, "svc", seq])          # every function that is also a @service is called as pyscript.f<i>
         end = stim[-1][0] + 1
         funcs = []
         # "tick" scenarios: dt_now() advances 1 us per call, so a time trigger wakes up slightly AFTER its instant and
@@ -620,7 +761,7 @@ def gen_ha(rng, n_scen):
             trig = "time" if tick else rng.choice(["state", "state", "event", "event", "time"])
             f = {"trig": trig, "expr": rng.random() < 0.4, "sa": rng.choice([None, None] + list(range(len(SA_EXPRS)))),
                  "ta": rng.random() < 0.75, "sa_first": rng.random() < 0.5, "trig_pos": rng.choice(["top", "bottom", "mid"]),
-                 "style": rng.randrange(1024)}
+                 "style": rng.randrange(8192)}
             if trig == "time":
                 ks = sorted(rng.sample(range(1, int(end * 4)), min(rng.randrange(3, 9), int(end * 4) - 1)))
                 f["instants"] = [k / 4 + 0.125 for k in ks]
@@ -636,6 +777,10 @@ def gen_ha(rng, n_scen):
                     pts = mids
             f["specs"] = (gen_window_near(rng, end, pts)) if f["ta"] else []
             f["hold"] = rng.choice(holds) if f["ta"] and not tick else None
+            if f["ta"] and f["hold"] is None and rng.random() < 0.3:
+                f["hold_kw_none"] = True          # hold_off=None written out
+            if rng.random() < 0.3:
+                f["svc"] = rng.choice(["top", "bottom"])     # @service above / below the other decorators
             if not tick and "shold" not in f and rng.random() < 0.4:
                 # several trigger decorators on one function: a second one of the same type (legacy: a second trigger task
                 # that must carry the same guards) and / or one of another type
@@ -643,6 +788,16 @@ def gen_ha(rng, n_scen):
                 same = {"sx": ["sy"], "e1": ["e2"], "tm": []}[own]
                 other = [m for m in ("sx", "sy", "e1", "e2") if m != own and m not in same]
                 f["more"] = (same if rng.random() < 0.8 else []) + rng.sample(other, rng.choice([0, 0, 1, 2]))
+            elif not tick and "shold" not in f and rng.random() < 0.35:
+                # a guard decorator used twice (documented: "only a single @state_active / @time_active per function")
+                if f["sa"] is not None and not f["hold"] and rng.random() < 0.5:
+                    f["dup"] = {"kind": "sa", "sa2": rng.randrange(len(SA_EXPRS))}
+                    f.pop("svc", None)
+                elif f["ta"] and f["hold"] is None:
+                    negs = [dict(a, neg=True) for a in gen_window_near(rng, end, pts) if a["kind"] == "range"][:2]
+                    f["dup"] = {"kind": "ta", "specs2": negs}
+                    f.pop("svc", None)
+                    f.pop("hold_kw_none", None)
             funcs.append(f)
         scen = {"id": sc_i, "stim": stim, "funcs": funcs, "end": end, "tick": tick}
         for legacy in (True, False):
@@ -656,6 +811,7 @@ def gen_cases(rng, tier, search):
     k = {"quick": 1, "thorough": 8}[tier] * (3 if search else 1)
     cases = corpus_cases()
     cases += gen_active(rng, 260 * k)
+    cases += gen_active_boundary(rng, 56 * k)
     cases += gen_handler(rng, 150 * k)
     cases += gen_ha(rng, 14 * k)
     return cases
@@ -715,6 +871,60 @@ def corpus_cases():
         for fi in range(len(funcs2)):
             out.append(Case({"kind": "ha", "legacy": legacy, "scen": scen2, "fi": fi}, None,
                             tags=("ha", "corpus", "multi", "legacy" if legacy else "new", funcs2[fi]["trig"])))
+    # boundary values: a guard decorator used twice (finding C07-F6), @service on a guarded function (service calls are not gated),
+    # hold_off 0.0 / 1 ms / None, attribute expressions, an empty range and two touching ranges hit exactly by time triggers
+    def hms(t):
+        x = BASE + dt.timedelta(seconds=t)
+        return ["at", "none", ["hms", x.hour, x.minute, x.second * 1000000 + x.microsecond], None]
+
+    def rg(neg, a, b):
+        return {"neg": neg, "kind": "range", "s": hms(a), "e": hms(b)}
+    lvl_ge2, lvl = 13, 14
+    funcs3 = [dict(fn("event", en_eq, False, [], None, True), dup={"kind": "sa", "sa2": cnt_ne}),       # en == '1' and cnt != '1'
+              dict(fn("state", None, True, [rg(False, 0, 8)], None, True), dup={"kind": "ta", "specs2": [rg(True, 2.5, 4.25)]}),
+              dict(fn("event", en_eq, True, [rg(False, 100, 200)], 100, True), svc="top"),                  # never by trigger
+              dict(fn("state", en_eq, False, [], None, True), svc="bottom"),
+              fn("event", None, True, [], 0.0, True),
+              fn("event", None, True, [], 0.001, False),
+              dict(fn("event", None, True, [], None, True), hold_kw_none=True),
+              fn("event", lvl_ge2, False, [], None, True),
+              fn("state", lvl, True, [], 0, False),
+              dict(fn("time", None, True, [rg(False, 3.125, 3.125)], None, True), instants=[2.125, 3.125, 4.125], startup=False),
+              dict(fn("time", None, True, [rg(False, 2.125, 3.125), rg(True, 3.125, 4.125)], None, True),
+                   instants=[2.125, 3.125, 4.125, 5.125], startup=False),
+              dict(fn("time", None, True, [rg(False, 2.125, 3.125), rg(False, 3.125, 4.125)], None, True),
+                   instants=[1.125, 2.125, 3.125, 4.125, 5.125], startup=False)]
+    stim3 = [[0.25, "en", "1"], [0.5, "cnt", "0"], [1.0, "ev", 1], [1.5, "x", "2"], [2.0, "svc", 3], [2.5, "cnt", "2"], [3.0, "ev", 4],
+             [3.5, "x", "5"], [4.0, "cnt", "1"], [4.5, "ev", 6], [5.0, "direct", 7], [5.5, "en", "0"], [6.0, "svc", 8], [6.5, "ev", 9],
+             [7.0, "x", "10"]]
+    scen3 = {"id": "corpus3", "stim": stim3, "funcs": funcs3, "end": 8.0, "tick": True}
+    scen3b = dict(scen3, id="corpus3b", tick=False)
+    for sc in (scen3b, scen3):
+        for legacy in (True, False):
+            for fi in range(len(funcs3)):
+                if sc["tick"] != (funcs3[fi]["trig"] == "time"):
+                    continue        # the time-trigger functions on the ticking clock (exact end-point hits), the others on the plain one
+                out.append(Case({"kind": "ha", "legacy": legacy, "scen": sc, "fi": fi}, None,
+                                tags=("ha", "corpus", "boundary", "legacy" if legacy else "new", funcs3[fi]["trig"])))
+    # every guard position (trigger kind x @state_active alone / above / below @time_active x trigger decorator at the top / in
+    # the middle / at the bottom) with a value that is falsy but not False (None), that raises (1 / 0) and that is truthy but not
+    # True (1): seeded change C07_6 let non-bool values through in one position only
+    allday = [{"neg": False, "kind": "range", "s": ["at", "none", ["hms", 0, 0, 0], None], "e": ["at", "none", ["hms", 24, 0, 0], None]}]
+    stim4 = [[0.25, "en", "1"], [0.5, "cnt", "0"], [1.0, "ev", 1], [1.5, "x", "2"], [2.0, "direct", 3], [4.0, "cnt", "1"], [4.5, "ev", 4], [5.0, "x", "5"]]
+    for tag, idx in (("none", nosuch), ("raises", 7), ("int", 2)):
+        funcs4 = []
+        for trig in ("state", "event", "time"):
+            for ta, sa_first in ((False, True), (True, True), (True, False)):
+                for pos in ("top", "mid", "bottom"):
+                    f = dict(fn(trig, idx, ta, allday if ta else [], None, sa_first), trig_pos=pos)
+                    if trig == "time":
+                        f.update(instants=[1.625, 5.125], startup=False)
+                    funcs4.append(f)
+        scen4 = {"id": "corpus4-" + tag, "stim": stim4, "funcs": funcs4, "end": 6.0}
+        for legacy in (True, False):
+            for fi in range(len(funcs4)):
+                out.append(Case({"kind": "ha", "legacy": legacy, "scen": scen4, "fi": fi}, None,
+                                tags=("ha", "corpus", "positions", "legacy" if legacy else "new", funcs4[fi]["trig"])))
     return out
 
 
@@ -824,6 +1034,7 @@ def func_events(scen, fi):
         timeline += [(t, 1, ["", "tick", t]) for t in f["instants"]]
     timeline.sort(key=lambda z: (z[0], z[1]))
     sa = SA_EXPRS[f["sa"]] if f["sa"] is not None else None
+    sa2 = SA_EXPRS[f["dup"]["sa2"]] if f.get("dup", {}).get("kind") == "sa" else None
 
     def occ(t, ident, wall, ok, new_vars, g=0):
         e = {"t": t, "kind": "occ", "id": ident, "wall": wall, "ok": ok, "n": len(dicts) + 1, "env": True, "sa": "T", "stale": [],
@@ -832,6 +1043,9 @@ def func_events(scen, fi):
             d = var_dict(sa[2], new_vars, state, last_x)
             e["env"] = bool(d)
             e["sa"] = aval(sa[1], Ctx(state, d))
+            if sa2 is not None:
+                # the second @state_active (new subsystem: both handlers must let the dispatch pass)
+                e["sa2"] = aval(sa2[1], Ctx(state, var_dict(sa2[2], new_vars, state, last_x)))
             if not d:
                 e["stale"] = [[k + 1, aval(sa[1], Ctx(state, dk))] for k, dk in enumerate(dicts) if dk]
             dicts.append(d)
@@ -883,8 +1097,8 @@ def func_events(scen, fi):
         elif what == "ev2":
             if "e2" in src:
                 occ(t, "g" + str(s[2]), t, True, {}, src["e2"])
-        elif what == "direct":
-            evs.append({"t": t, "kind": "direct", "id": "d" + str(s[2])})
+        elif what == "direct" or (what == "svc" and f.get("svc")):
+            evs.append({"t": t, "kind": "direct", "id": "d" + str(s[2]), "svc": what == "svc"})
         elif what == "tick":
             occ(t, "t" + sec_str(t), t, True, {})
     if hold:
@@ -919,13 +1133,20 @@ def script_for(scen):
             args = (['"startup"'] if f.get("startup") else []) + [f'"once({sec_str(t)})"' for t in f["instants"]]
             trig = "@time_trigger(" + ", ".join(args) + ")"
         guards = []
+        dup = f.get("dup", {})
         if f["sa"] is not None:
             guards.append(("sa", f'@state_active("{SA_EXPRS[f["sa"]][0]}")'))
+            if dup.get("kind") == "sa":
+                guards.append(("sa", f'@state_active("{SA_EXPRS[dup["sa2"]][0]}")'))
         if f["ta"]:
             args = [json.dumps(render_aspec(a, f["style"])) for a in f["specs"]]
             if f["hold"] is not None:
                 args.append(f"hold_off={f['hold']}")
+            elif f.get("hold_kw_none"):
+                args.append("hold_off=None")
             guards.append(("ta", "@time_active(" + ", ".join(args) + ")"))
+            if dup.get("kind") == "ta":
+                guards.append(("ta", "@time_active(" + ", ".join(json.dumps(render_aspec(a, f["style"])) for a in dup["specs2"]) + ")"))
         if not f["sa_first"]:
             guards.reverse()
         decs = [g[1] for g in guards]
@@ -939,6 +1160,8 @@ def script_for(scen):
         more = {"sx": '@state_trigger("pyscript.x")', "sy": '@state_trigger("pyscript.y")', "e1": '@event_trigger("ev")',
                 "e2": '@event_trigger("ev2")'}
         decs += [more[m] for m in f.get("more", [])]
+        if f.get("svc"):
+            decs = ["@service"] + decs if f["svc"] == "top" else decs + ["@service"]
         lines += decs + [f"def f{fi}(**kw):", f"    rec('run', {fi}, ident(kw))", ""]
     lines += ['@event_trigger("direct")', "def caller(seq=None, **kw):"]
     for fi in range(len(scen["funcs"])):
@@ -971,6 +1194,12 @@ def _run_scenario(arg):
                 env.hass.bus.async_fire(what, {"n": v})
             elif what == "direct":
                 env.hass.bus.async_fire("direct", {"seq": v})
+            elif what == "svc":
+                for fi, f in enumerate(scen["funcs"]):
+                    if f.get("svc"):
+                        await env.hass.services.async_call("pyscript", f"f{fi}", {"seq": v}, blocking=True)
+            elif what == "cnt":
+                env.hass.states.async_set("pyscript.cnt", v, {"level": int(v)})
             else:
                 env.hass.states.async_set("pyscript." + what, v)
         await _goto(env, scen["end"] + 3.0)       # longer than any state_hold
@@ -1036,6 +1265,7 @@ def make_line(c):
     scen, fi = p["scen"], p["fi"]
     f = scen["funcs"][fi]
     evs = func_events(scen, fi)
+    f_specs, evs = merged_guards(f, evs)
     st_us = us_of(BASE)   # triggers start at virtual time 0 (ha_env settles 1 ms only after set-up)
     out, walls, oev = [], set(), []
     for e in evs:
@@ -1048,16 +1278,41 @@ def make_line(c):
         ev = ["occ", e["n"], int(round(e["t"] * 1000000)), wall, e["ok"], e["env"], e["sa"], e["stale"]]
         out.append(["g", e["g"], ev] if p["legacy"] and e.get("g") else ev)
         oev.append(dict(e, wallus=wall))
-    specs = sx_specs(f["specs"], cron_ids)
+    specs = sx_specs(f_specs, cron_ids)
     hold = "none" if f["hold"] is None else int(round(f["hold"] * 1000000))
     cfg = [f["sa"] is not None, f["ta"], specs, hold, f["sa_first"], st_us]
-    p["_oracle"] = oracle_runs(f["specs"], f["hold"], dt_of(st_us), oev, f["sa"] is not None, f["ta"])
+    if f.get("dup"):
+        # documented: "only a single @state_active / @time_active decorator can be used per function" - the function is refused
+        # as a trigger function (it stays callable).  legacy model: Legacy.runFn with the decorator counts; new model: the two
+        # handlers in a row, i.e. the merged guard (see merged_guards)
+        p["_oracle"] = "".join("1" if e["kind"] == "direct" else "0" for e in oev)
+        p["_merged"] = oracle_runs(f_specs, f["hold"], dt_of(st_us), oev, f["sa"] is not None, f["ta"])
+        if p["legacy"]:
+            cfg += [2 if f["dup"]["kind"] == "sa" else 1, 2 if f["dup"]["kind"] == "ta" else 1]
+    else:
+        p["_oracle"] = oracle_runs(f_specs, f["hold"], dt_of(st_us), oev, f["sa"] is not None, f["ta"])
     head = ["legacy", "cur"] if p["legacy"] else ["new", "cur"]
     return "C07 " + sx(head + [cfg, out, [], cron_table(cron_ids, sorted(walls))])
 
 
 def _show(v):
     return "raise" if v == "raise" else "T" if v else "F"
+
+
+def merged_guards(f, evs):
+    """a guard decorator used twice, as the NEW subsystem treats it (two handlers in a row, each able to stop the dispatch): the
+    same as one guard whose value is truthy iff both are / whose argument list has the negative entries of both"""
+    dup = f.get("dup")
+    if not dup:
+        return f["specs"], evs
+    if dup["kind"] == "ta":
+        return f["specs"] + dup["specs2"], evs
+    out = []
+    for e in evs:
+        if e["kind"] == "occ":
+            e = dict(e, sa=e["sa"] if e["sa"] != "T" else e["sa2"], stale=[])
+        out.append(e)
+    return f["specs"], out
 
 
 def oracle_runs(specs, hold, startup, evs, has_sa, has_ta):
@@ -1115,10 +1370,11 @@ def _py_run(p, flags, legacy):
                for i, e in enumerate(p["events"])]
     else:
         f = p["scen"]["funcs"][p["fi"]]
-        specs, hold, has_sa, has_ta, sa_first = f["specs"], f["hold"], f["sa"] is not None, f["ta"], f["sa_first"]
+        hold, has_sa, has_ta, sa_first = f["hold"], f["sa"] is not None, f["ta"], f["sa_first"]
         st = BASE
         evs = []
-        for e in func_events(p["scen"], p["fi"]):
+        specs, fev = merged_guards(f, func_events(p["scen"], p["fi"]))
+        for e in fev:
             if e["kind"] == "occ":
                 e = dict(e, wallus=us_of(BASE) + (0 if e["wall"] is None else int(round(e["wall"] * 1000000))))
             evs.append(e)
@@ -1200,6 +1456,9 @@ def classify(c, reason):
         return "active:" + re.sub(r"\d+", "N", reason)[:60]
     legacy = p["kind"] == "ha" and p["legacy"]
     sub = "legacy" if legacy else "new"
+    if p["kind"] == "ha" and p["scen"]["funcs"][p["fi"]].get("dup"):
+        # finding C07-F6: the new subsystem does not refuse the repeated decorator; both guards then gate the function
+        return sub + (":repeated-guard-accepted" if c.impl == p.get("_merged") and not legacy else ":repeated-guard:unexplained")
     # legacy: `groupHold` = hold_off kept per trigger task (open finding C07-F5)
     names = ["groupHold", "staleLocals"] if legacy else OPEN_FLAGS + FIXED_FLAGS
     for k in range(1, len(names) + 1):
@@ -1230,7 +1489,32 @@ def extra_coverage(cases):
            "wrapping_ranges": 0, "subsystems": {}, "trigger_kinds": {}, "state_active_values": {}, "hold_off_exact_ties": 0,
            "direct_calls": 0, "decorator_orders": {}, "lean_spec_vs_python_oracle_mismatches": 0,
            "functions_with_several_triggers": {}, "occurrences_of_a_second_trigger_task": 0,
-           "state_hold_completions": 0, "state_hold_straddling_a_window_end": 0}
+           "state_hold_completions": 0, "state_hold_straddling_a_window_end": 0,
+           "boundary_shapes": {}, "spellings": {"upper": 0, "capitalised": 0, "blank_runs": 0}, "edge_times_24_00_like": 0,
+           "zero_offsets": 0, "hold_off_values": {}, "service_calls": 0, "functions_also_service": 0,
+           "repeated_guard_functions": {}, "state_active_expressions": {}, "nonbool_values_by_guard_position": {},
+           "empty_ranges": 0, "touching_range_pairs": 0}
+
+    def scan_dt(d):
+        if d[0] == "at":
+            if not isinstance(d[2], str) and (d[2][1] >= 24 or d[2][2] >= 60 or d[2][3] >= 60000000):
+                cov["edge_times_24_00_like"] += 1
+            off = d[3]
+        else:
+            off = d[1]
+        if off is not None and float(off[1]) == 0:
+            cov["zero_offsets"] += 1
+
+    def scan_specs(specs):
+        ends = []
+        for a in specs:
+            if a["kind"] == "range":
+                scan_dt(a["s"])
+                scan_dt(a["e"])
+                if a["s"] == a["e"]:
+                    cov["empty_ranges"] += 1
+                ends.append((json.dumps(a["s"]), json.dumps(a["e"])))
+        cov["touching_range_pairs"] += sum(1 for i, x in enumerate(ends) for j, y in enumerate(ends) if i != j and x[1] == y[0] and x[0] != x[1])
 
     def bump(d, k):
         d[k] = d.get(k, 0) + 1
@@ -1239,7 +1523,19 @@ def extra_coverage(cases):
         bump(cov["streams"], p["kind"])
         if c.spec is not None and c.spec != p.get("_oracle"):
             cov["lean_spec_vs_python_oracle_mismatches"] += 1
+        if p["kind"] in ("active", "handler"):
+            scan_specs(p["specs"])
+            for st_ in p["strs"]:
+                body = st_[st_.index("(") + 1:]
+                if any(ch.isalpha() for ch in body) or "cron" in st_:
+                    pass
+                if body != body.lower() and "cron(" not in st_:
+                    cov["spellings"]["upper" if body == body.upper() else "capitalised"] += 1
+                if "   " in body:
+                    cov["spellings"]["blank_runs"] += 1
         if p["kind"] == "active":
+            if len(c.tags) > 2 and c.tags[1] == "boundary":
+                bump(cov["boundary_shapes"], c.tags[2])
             bump(cov["impl_outcomes"], c.impl)
             now, st = dt_of(p["now"]), dt_of(p["startup"])
             for a in p["specs"]:
@@ -1260,6 +1556,7 @@ def extra_coverage(cases):
                     pass
         elif p["kind"] == "handler":
             bump(cov["subsystems"], "new")
+            bump(cov["hold_off_values"], repr(p["hold"]))
             acc = None
             for e, fl in zip(p["events"], c.impl or ""):
                 if p["hold"] and acc is not None and e["t"] - acc == p["hold"]:
@@ -1271,14 +1568,26 @@ def extra_coverage(cases):
             bump(cov["subsystems"], "legacy" if p["legacy"] else "new")
             bump(cov["trigger_kinds"], f["trig"])
             bump(cov["decorator_orders"], "sa_first" if f["sa_first"] else "ta_first")
+            scan_specs(f["specs"])
+            if f["ta"]:
+                bump(cov["hold_off_values"], "None (written out)" if f.get("hold_kw_none") else repr(f["hold"]))
+            if f.get("svc"):
+                cov["functions_also_service"] += 1
+            if f.get("dup"):
+                bump(cov["repeated_guard_functions"], f["dup"]["kind"] + "/" + ("legacy" if p["legacy"] else "new"))
+            if f["sa"] is not None:
+                bump(cov["state_active_expressions"], SA_EXPRS[f["sa"]][0])
             if f.get("more"):
                 bump(cov["functions_with_several_triggers"], "+".join(sorted(sources(f))))
                 cov["occurrences_of_a_second_trigger_task"] += sum(1 for e in func_events(p["scen"], p["fi"]) if e.get("g"))
             acc = None
             for e, fl in zip(func_events(p["scen"], p["fi"]), c.impl or ""):
                 if e["kind"] == "direct":
-                    cov["direct_calls"] += 1
+                    cov["service_calls" if e.get("svc") else "direct_calls"] += 1
                     continue
+                if f["sa"] is not None and e["sa"] in ("Z", "R"):
+                    pos = ("sa above ta" if f["sa_first"] else "sa below ta") if f["ta"] else "sa alone"
+                    bump(cov["nonbool_values_by_guard_position"], f"{f['trig']}/{pos}/trigger {f['trig_pos']}/{e['sa']}")
                 if f.get("shold") and e["wall"] is not None:
                     cov["state_hold_completions"] += 1
                     t1 = BASE + dt.timedelta(seconds=e["wall"])
